@@ -10,3 +10,4 @@ import VibeProof.Props.C04
 #print axioms VibeProof.C04.C04_parHashJoin
 #print axioms VibeProof.C04.C04_hashSemiPar
 #print axioms VibeProof.C04.C04_hashAntiPar
+#print axioms VibeProof.C04.C04_truthiness_tables_agree
